@@ -25,7 +25,7 @@ class Behaviour:
             "w": {"setTimer": 5, "cancelTimer": 2, "send": 3, "broadcast": 2, "goto": 1,
                   "setSpeed": 0.5, "setRange": 0.5, "gotoGeo": 0},
             "pBadDst": 0.12, "pGuarded": 0.15, "pFinish": 0.5, "names": NAMES,
-            "speeds": [10.0, 4.0, 0.5, 64.0], "ranges": [60.0, 5.0, 0.0, 25.0, -1.0],
+            "speeds": [10.0, 4.0, 0.5, 64.0], "ranges": [60.0, 5.0, 0.0, 25.0, -1.0, float("inf")],
             # "base": ticks added to timers set from initialize: moves the whole timeline far from 0
             # (all times stay dyadic and far below 2^53/1024, so float arithmetic remains exact)
             "base": 0,
@@ -210,8 +210,12 @@ def gen_scenario(seed, force_cfg=None, profile=None, drive=None):
         beh0 = Behaviour(stable_hash("pre", seed), cfg, prof)
         rows = []
         for n in r.sample(range(cfg["nNodes"]), min(cfg["nNodes"], r.choice([1, 1, 2]))):
-            reqs = [q for q in (beh0.make(r, r.choice(["setTimer", "setTimer", "cancelTimer", "goto", "setSpeed", "send"]),
-                                          n, "initialize", "", 0, 0) for _ in range(r.randint(1, 3))) if q]
+            # only request kinds the check's profile uses at all (a check that keeps every pair in range
+            # issues no setRange here either)
+            ops = [o for o in ["setTimer", "setTimer", "cancelTimer", "goto", "setSpeed", "send", "setRange"]
+                   if beh0.p["w"].get(o, 0) > 0] or ["setTimer"]
+            reqs = [q for q in (beh0.make(r, r.choice(ops), n, "initialize", "", 0, 0)
+                                for _ in range(r.randint(1, 3))) if q]
             if reqs:
                 rows.append({"n": n, "reqs": reqs})
         if rows:
@@ -220,7 +224,8 @@ def gen_scenario(seed, force_cfg=None, profile=None, drive=None):
     if (drive["mode"] == "steps" or drive.get("pre")) and r.random() < 0.3:
         ref = cfg["refGeo"]
         scn["shadow"] = {"mode": r.choice(["twin", "twin", "other"]), "lead": r.choice([0, 0, 1, 3]),
-                         "refGeo": [fbits(1.0), fbits(2.0), ref[2]] if r.random() < 0.5 else None}
+                         "refGeo": [fbits(1.0), fbits(2.0), ref[2]] if r.random() < 0.5 else None,
+                         "defaultRange": fbits(r.choice([0.5, 3.0, 1.0e9])) if r.random() < 0.5 else None}
     # observation / usage options that must not matter: profiling on, command objects re-used
     if r.random() < 0.25:
         scn["simOptions"] = {"profile": True}
@@ -228,6 +233,24 @@ def gen_scenario(seed, force_cfg=None, profile=None, drive=None):
         scn["reuseCommands"] = True
     if r.random() < 0.3:
         scn["lateMedium"] = True
+    # further usage shapes that must not matter (own random stream: the scenarios above stay what they were)
+    r2 = random.Random(stable_hash("usage", seed))
+    if "names" not in prof and r2.random() < 0.2:
+        # timer names are arbitrary strings: the empty name, names made of digits, names that extend each other
+        prof["names"] = r2.choice([["", "a", "b"], ["1", "11", "a"], ["a", "ab", "b"], ["0", "", "10"], ["2", "12", "1"]])
+    if "nNodes" not in (force_cfg or {}) and cfg["nNodes"] >= 2 and r2.random() < 0.06:
+        # a crowd: node ids with two digits
+        k = r2.choice([11, 12, 13])
+        cfg["initPos"] = cfg["initPos"] + [[fbits(c) for c in lattice(r2)] for _ in range(k - cfg["nNodes"])]
+        cfg["nNodes"] = k
+    if r2.random() < 0.25:
+        scn["lateConfig"] = r2.choice(["beforeBuild", "afterBuild"])
+    if r2.random() < 0.25:
+        scn["pollDone"] = True
+    if r2.random() < 0.3:
+        scn["intArgs"] = True
+    if r2.random() < 0.3:
+        scn["distinctProtos"] = True
     return scn, Behaviour(stable_hash("beh", seed), cfg, prof)
 
 
